@@ -238,6 +238,56 @@ def run(ctx):
     ok = bool(pops) and all(norm(x.args[0]) == cs.params[1] for x in pops)
     c.ob("R6", ok, cs, "cancel-pops-only-its-id", "cancel(id) removes and invokes exactly the canceller stored under that id" if ok else
          "cancel(id) does not pop exactly the given id", cs.node)
+    # ---- R13 every child interpreter the engine creates is wired to its parent before it runs ---------------
+    # (sendParent / escalate resolve through child.parent; addressing, the registry and the snapshot use child.id)
+    n13 = 0
+    for v in VIEWS:
+        r_ = roles(ctx, v)
+        for f_ in r_.funcs:
+            if f_.module.name not in ("interpreter", "sync_interpreter"):
+                continue
+            made = [a for a in own_nodes(f_.node) if isinstance(a, ast.Assign) and isinstance(a.targets[0], ast.Name) and isinstance(a.value, ast.Call)
+                    and norm(a.value.func) in ("Interpreter", "SyncInterpreter", "self._interpreter_class", "type(self)", "self.__class__")]
+            for a in made:
+                ch = a.targets[0].id
+                n13 += 1
+                g = cfg_of(f_.node)
+                starts = [x for h in [f_] + list(f_.nested.values()) for x in own_nodes(h.node)
+                          if isinstance(x, ast.Call) and isinstance(x.func, ast.Attribute) and x.func.attr == "start" and norm(x.func.value) == ch]
+                for attr, why in (("parent", "sendParent / escalate from the child are dropped and the parent's stop() is not mirrored"),
+                                  ("id", "the child keeps the id of its machine: it is not addressable under the id it was registered with and two children of one machine collide")):
+                    sets = [x for x in own_nodes(f_.node) if isinstance(x, ast.Assign) and norm(x.targets[0]) == f"{ch}.{attr}"]
+                    ok = bool(sets) and all(g.always_before([i for x in sets for i in cfg_node_of(f_, x)], j, follow_exc=False)
+                                            for st in starts if st in list(own_nodes(f_.node)) for j in cfg_node_of(f_, st))
+                    c.ob("R13", ok, f_, f"{v}:child-wired:{ch}.{attr}", f"'{ch}.{attr}' is set before the child starts" if ok else
+                         f"'{ch}.{attr}' is not assigned on every path before the child is started in {f_.short}: {why}", a)
+    c.expect("R13", "child interpreter construction sites", n13, 3, p.method("Interpreter", "_spawn_actor"))
+    # ---- R14 the async engine waits for a child's stop(): when stopChild / stop() returns the child has stopped --------
+    from sa.util import parents as _parents
+    n14 = 0
+    for f_ in p.funcs_in("interpreter"):
+        pm = _parents(f_)
+        for x in own_nodes(f_.node):
+            if not (isinstance(x, ast.Call) and isinstance(x.func, ast.Attribute) and x.func.attr == "stop" and dotted(x.func.value) not in ("self", "super()")
+                    and not norm(x.func.value).startswith("self.")):
+                continue
+            n14 += 1
+            par = pm.get(id(x))
+            if isinstance(par, ast.Await):
+                c.ob("R14", True, f_, f"stop-awaited:{norm(x.func.value)}", "the child's stop() is awaited", x)
+                continue
+            var = par.targets[0].id if isinstance(par, ast.Assign) and isinstance(par.targets[0], ast.Name) else None
+            aw = [y for y in own_nodes(f_.node) if isinstance(y, ast.Await) and var and norm(y.value) == var]
+            ok = False
+            for y in aw:
+                at = [canon_atom(a, pol) for a, pol in guards_at(f_, y)]
+                mine = [t for t in at if var in t[1]]
+                if mine and all(t == ("truthy", f"inspect.isawaitable({var})", "", True) for t in mine):
+                    ok = True
+            c.ob("R14", ok, f_, f"stop-awaited:{norm(x.func.value)}", "the result of the child's stop() is awaited when it is awaitable" if ok else
+                 f"'{norm(x)}' in {f_.short} is not awaited (directly, or through 'if inspect.isawaitable(r): await r'): the action returns while the "
+                 f"child is still running; it keeps receiving and emitting after stopChild / stop() returned", x)
+    c.expect("R14", "stop() calls on other interpreters in the async engine", n14, 3, p.method("Interpreter", "stop"))
     # ---- R7 exactly one registration + start per spawn -----------------------------------
     for v in VIEWS:
         sp = p.method(v, "_spawn_actor")
